@@ -363,7 +363,8 @@ def families() -> Dict[str, Family]:
         from test.dataset.university_ontology_like_classes import Company, Person, CEO
         _FAMS["U"] = Family("U", [Company, Person, CEO], {2: "person"}, extra_range={(0, "members"): [2]},
                             max_counts=(3, 3, 2)).analyse()
-        _FAMS["N"] = Family("N", [Node, Boss, Twin], {1: "node"}, max_counts=(4, 2, 0)).analyse()
+        _FAMS["N"] = Family("N", [Node, Boss, Twin], {1: "node"}, max_counts=(4, 2, 2),
+                            extra_range={(0, "top"): [2], (0, "a"): [2], (0, "b"): [2], (0, "ab"): [2]}).analyse()
         _FAMS["O"] = Family("O", [Org, Dept], {}, max_counts=(4, 2)).analyse()
         _FAMS["K"] = Family("K", [KOrg, KEmployee, KConsultant, KChair], {3: "consultant"}, max_counts=(3, 2, 2, 2)).analyse()
     return _FAMS
@@ -374,7 +375,7 @@ def families() -> Dict[str, Family]:
 #  implementation is compared with is the Coq one)
 def py_closure(fam: Family, pop, edges) -> set:
     cls = [p[0] for p in pop]
-    rt = {i: p[1] for i, p in enumerate(pop) if p[1] is not None}
+    rt = {i: p[1] for i, p in enumerate(pop) if p[1] is not None}  # noqa
     E = set(map(tuple, edges))
     while True:
         new = set()
@@ -421,14 +422,50 @@ HOWS = {"list": ["append", "insert0", "extend", "iadd", "assign"],
         "scalar": ["set"]}
 
 
-def build_population(fam: Family, pop):
-    objs = []
-    for i, (ci, rti) in enumerate(pop):
-        C = fam.classes[ci]
-        if ci in fam.role_taker:
-            o = C(objs[rti])
+def pop_ctor(p):
+    return (p[2] if len(p) > 2 and p[2] else [])
+
+
+def pop_key(p):
+    return p[3] if len(p) > 3 else None
+
+
+def ctor_edges(pop) -> List[Tuple[int, int, int]]:
+    """facts asserted through constructor arguments, in construction order"""
+    return [(i, f, t) for i, p in enumerate(pop) for f, ts in pop_ctor(p) for t in ts]
+
+
+def twin_classes(pop) -> List[Tuple[int, int]]:
+    """(object, representative) for the objects that compare equal to an EARLIER object (class Twin, same key)"""
+    first, out = {}, []
+    for i, p in enumerate(pop):
+        k = pop_key(p)
+        if k is None:
+            continue
+        if k in first:
+            out.append((i, first[k]))
         else:
-            o = C(f"o{i}")
+            first[k] = i
+    return out
+
+
+def build_population(fam: Family, pop):
+    """a pop entry is [class, role taker, constructor contents [[field, [targets]], ...] or None, Twin key or None]"""
+    objs = []
+    for i, p in enumerate(pop):
+        ci, rti = p[0], p[1]
+        C = fam.classes[ci]
+        kw = {}
+        for f, ts in pop_ctor(p):
+            vals = [objs[t] for t in ts]
+            kd = fam.kind[f]
+            kw[fam.flds[f][1]] = vals[0] if kd == "scalar" else (set(vals) if kd == "set" else list(vals))
+        if C is Twin:
+            o = C(f"o{i}", key=pop_key(p))
+        elif ci in fam.role_taker:
+            o = C(objs[rti], **kw)
+        else:
+            o = C(f"o{i}", **kw)
         objs.append(o)
     return objs
 
@@ -438,7 +475,10 @@ def run_impl(descr) -> Dict[str, Any]:
     SymbolGraph().clear()
     SymbolGraph()
     pop = descr["pop"]
-    objs = build_population(fam, pop)
+    try:
+        objs = build_population(fam, pop)
+    except Exception as e:  # noqa  -- a constructor raised: nothing comparable can be observed
+        return {"E": [], "V": [], "exc": f"{type(e).__name__}: {str(e)[:160]}", "build_failed": True}
     exc = None
     try:
         for how, s, f, ts in descr["ops"]:
@@ -536,11 +576,12 @@ Import ListNotations. Open Scope nat_scope."""
 
 
 def header(model: bool) -> str:
-    return (HEADER_MODEL_IMPORTS if model else HEADER_SPEC_IMPORTS) + "\n" + "".join(f.coq_defs() for f in families().values())
+    return ((HEADER_MODEL_IMPORTS if model else HEADER_SPEC_IMPORTS) + "\n" + "".join(f.coq_defs() for f in families().values())
+            + "Definition clsf (tw : list (nat * nat)) (o : nat) : nat := odef o (lookup o tw).\n")
 
 
 def edges_of(descr) -> List[Tuple[int, int, int]]:
-    return [(s, f, t) for _, s, f, ts in descr["ops"] for t in ts]
+    return ctor_edges(descr["pop"]) + [(s, f, t) for _, s, f, ts in descr["ops"] for t in ts]
 
 
 def sch_term(descr) -> str:
@@ -562,7 +603,8 @@ def fuel_of(descr) -> int:
 
 def model_term(descr) -> str:
     k = descr["fam"]
-    return f"model_out (runV {sch_term(descr)} scalar_{k} islist_{k} {fuel_of(descr)} {edges_term(edges_of(descr))})"
+    tw = "[" + "; ".join(f"({a}, {b})" for a, b in twin_classes(descr["pop"])) + "]"
+    return f"model_out (runV {sch_term(descr)} scalar_{k} islist_{k} (clsf {tw}) {fuel_of(descr)} {edges_term(edges_of(descr))})"
 
 
 def spec_term(descr) -> str:
@@ -586,6 +628,8 @@ def gen_population(fam: Family, rng: core.Rng):
         nodes = list(range(nn))
         rng.shuffle(nodes)
         pop += [[1, nodes[i]] for i in range(nb)]
+        if rng.chance(0.3):                    # two distinct objects that compare and hash equal
+            pop = [[2, None, None, 0], [2, None, None, 0]] + [[p[0], None if p[1] is None else p[1] + 2] for p in pop]
     elif fam.key == "K":
         no, ne, nc = rng.randint(1, 3), rng.randint(0, 2), rng.randint(1, 2)
         nch = rng.randint(0, nc)
@@ -596,7 +640,54 @@ def gen_population(fam: Family, rng: core.Rng):
     else:
         no, nd = rng.randint(2, 4), rng.randint(0, 2)
         pop = [[0, None]] * no + [[1, None]] * nd
-    return [list(p) for p in pop]
+    pop = [list(p) for p in pop]
+    add_ctor_contents(fam, pop, rng)
+    return pop
+
+
+def ctor_safe(fam: Family, f: int) -> bool:
+    """may field f be given to the constructor?  Containers only, and every field of the SAME object that inference writes
+    (its super-properties in that class) must be declared before f: __init__ assigns the fields in declaration order and
+    inference into a field that does not exist yet raises AttributeError (known finding C15-c).  Company.members is left out
+    for the value-equal dataclasses of the university model (C15-c as well)."""
+    ci, name, _ = fam.flds[f]
+    if fam.kind[f] == "scalar" or (fam.key == "U" and name == "members"):
+        return False
+    order = [x.name for x in dc_fields(fam.classes[ci])]
+    return all(order.index(fam.flds[g][1]) < order.index(name) for g in fam.sups.get((ci, f), []))
+
+
+def add_ctor_contents(fam: Family, pop, rng: core.Rng):
+    """non-empty containers handed to the dataclass constructor (first-assignment path of __set__)"""
+    for i, p in enumerate(pop):
+        if fam.classes[p[0]] is Twin or not rng.chance(0.25):
+            continue
+        cands = [f for f, (ci, _, _) in enumerate(fam.flds) if ci == p[0] and ctor_safe(fam, f)]
+        if not cands:
+            continue
+        f = rng.choice(cands)
+        tgts = [j for j in range(i) if pop[j][0] in fam.rng[f]]
+        if not tgts:
+            continue
+        ts = [rng.choice(tgts) for _ in range(rng.randint(1, 2))]
+        if fam.kind[f] == "set":
+            ts = dedupe_equal(pop, ts)
+        if admissible(fam, pop, ctor_edges(pop) + [(i, f, t) for t in ts]):
+            while len(p) < 3:
+                p.append(None)
+            p[2] = [[f, ts]]
+
+
+def dedupe_equal(pop, ts):
+    """what set(...) of these objects keeps: one object per ==-class, the first"""
+    rep = dict(twin_classes(pop))
+    seen, out = set(), []
+    for x in ts:
+        c = rep.get(x, x)
+        if c not in seen:
+            seen.add(c)
+            out.append(x)
+    return out
 
 
 def gen_op(fam: Family, pop, rng: core.Rng, single: bool = False):
@@ -613,6 +704,12 @@ def gen_op(fam: Family, pop, rng: core.Rng, single: bool = False):
             how = {"list": "append", "set": "add", "scalar": "set"}[kind]
         k = 1 if (kind == "scalar" or single or how in ("append", "insert0", "add")) else rng.randint(1, 3)
         ts = [rng.choice(tgts) for _ in range(k)]
+        if how == "assign_set":                 # the harness builds a Python set of the values
+            ts = dedupe_equal(pop, ts)
+        if how == "ior":                        # set.__ior__ ignores a value equal to a present one: it is then never asserted
+            ts = [x for x in ts if pop_key(pop[x]) is None]
+            if not ts:
+                continue
         return [how, rng.choice(srcs), f, ts]
     return None
 
@@ -623,7 +720,7 @@ def gen_history(fam: Family, pop, rng: core.Rng, nops: int, single: bool = False
         op = gen_op(fam, pop, rng, single)
         if op is None:
             continue
-        if admissible(fam, pop, [(s, f, t) for _, s, f, ts in ops + [op] for t in ts]):
+        if admissible(fam, pop, ctor_edges(pop) + [(s, f, t) for _, s, f, ts in ops + [op] for t in ts]):
             ops.append(op)
     return ops
 
@@ -649,7 +746,7 @@ def gen_cases(tier: str, seed: int) -> List[dict]:
             if len(ops) >= size:
                 break
             cand = gen_history(fam, pop, rng, 1, single=True)
-            if cand and cand[0] not in ops and admissible(fam, pop, [(s, f, t) for _, s, f, ts in ops + cand for t in ts]):
+            if cand and cand[0] not in ops and admissible(fam, pop, ctor_edges(pop) + [(s, f, t) for _, s, f, ts in ops + cand for t in ts]):
                 ops += cand
         for perm in itertools.permutations(ops):
             out.append({"fam": fam.key, "pop": pop, "ops": [list(o) for o in perm], "group": f"perm{i}"})
@@ -668,6 +765,20 @@ def corpus_cases() -> List[Tuple[str, dict]]:
 # =========================================================================== deciding
 def norm(edges) -> List[Tuple[int, int, int]]:
     return sorted(tuple(e) for e in edges)
+
+
+def in_equal_twins_class(descr, spec) -> bool:
+    """K_equal_twins: the closure relates one object through one field to two DISTINCT objects that compare equal"""
+    if spec == -1:
+        return False
+    rep_ = dict(twin_classes(descr["pop"]))
+    seen = {}
+    for s, f, t in norm(spec):
+        k = (s, f, rep_.get(t, t))
+        if k in seen and seen[k] != t:
+            return True
+        seen.setdefault(k, t)
+    return False
 
 
 def decide(rep: core.Report, descr, impl, model, spec, model_ok: bool, stats) -> Optional[dict]:
@@ -718,8 +829,10 @@ def run(tier: str, seed: int, replay=None) -> int:
         "container assignment only onto an empty field (assignment onto a non-empty field is retraction, which the graph does not do)",
         "every descriptor with an inverse finds a field of the inverse descriptor class on the target or its role taker (otherwise ValueError by design)",
         "instance classes own their descriptors directly (no instances of subclasses of a descriptor-owning class)",
+        "field agreement is proved when no two distinct objects compare equal; K_equal_twins (C15-b) is refuted and its instances must match the model exactly",
+        "constructor arguments: non-empty containers only, and only where every same-object field written by inference is declared earlier (K_ctor_halfbuilt, C15-c/d, replayed from witnesses)",
     ]
-    rep.rule = ("random assertion histories (1-9 write operations: append/insert/extend/+=/assignment, add/update/|=, scalar assignment) "
+    rep.rule = ("random populations whose objects are partly built with NON-EMPTY containers handed to the constructor, in family N partly with two distinct objects that compare and hash equal; random assertion histories (1-9 write operations: append/insert/extend/+=/assignment, add/update/|=, scalar assignment) "
                 "over random populations of the university model and of three harness-defined schemas (diamond of sub-properties + transitive "
                 "inverse pair with cycles + role taker; one transitive descriptor on two domain classes + self-inverse relation; a 4-level sub-property chain whose domain classes and role taker skip levels), plus ALL "
                 "permutations of fact sets of <= 5 (thorough <= 6) facts; non-trivial = the closure is strictly larger than the asserted set; "
@@ -763,6 +876,7 @@ def run(tier: str, seed: int, replay=None) -> int:
     fixed_names = {f.witness.split("/")[-1]: f for f in findings if f.kind == "fixed"}
     open_names = {f.witness.split("/")[-1]: f for f in findings if f.kind == "open"}
     nviol = 0
+    kf_instances: Dict[str, int] = {}
     for i, (d, impl, model, spec) in enumerate(zip(descrs, impls, models, specs)):
         cname = corpus[i][0] if i < len(corpus) else None
         asserted = set(edges_of(d))
@@ -775,6 +889,10 @@ def run(tier: str, seed: int, replay=None) -> int:
         dist["group"][g] = dist["group"].get(g, 0) + 1
         for op in d["ops"]:
             dist["how"][op[0]] = dist["how"].get(op[0], 0) + 1
+        if ctor_edges(d["pop"]):
+            dist["with_constructor_contents"] = dist.get("with_constructor_contents", 0) + 1
+        if twin_classes(d["pop"]):
+            dist["with_equal_twins"] = dist.get("with_equal_twins", 0) + 1
         if spec != -1:
             b = min(len(spec) // 5 * 5, 40)
             dist["closure_size"][b] = dist["closure_size"].get(b, 0) + 1
@@ -783,8 +901,17 @@ def run(tier: str, seed: int, replay=None) -> int:
             if cname in open_names:
                 rep.note(f"known finding {open_names[cname].fid}: witness no longer fails")
             continue
-        if cname in open_names and model_ok and model != -1 and norm(model[0]) == norm(impl["E"]) and norm(model[1]) == norm(impl["V"]):
+        model_same = bool(model_ok and model != -1 and not impl.get("build_failed") and not impl["exc"]
+                          and norm(model[0]) == norm(impl["E"]) and norm(model[1]) == norm(impl["V"]))
+        if cname in open_names and model_same:
             rep.known(open_names[cname])
+            continue
+        if (cname in open_names and open_names[cname].cls == "K_ctor_halfbuilt" and impl.get("build_failed")
+                and d.get("expect_exc") and (impl["exc"] or "").startswith(d["expect_exc"])):
+            rep.known(open_names[cname])       # the constructor raises exactly the recorded error (no model of __init__ order)
+            continue
+        if (model_same and in_equal_twins_class(d, spec) and any(f.cls == "K_equal_twins" for f in findings if f.kind == "open")):
+            kf_instances["K_equal_twins"] = kf_instances.get("K_equal_twins", 0) + 1    # instance of C15-b, exactly as the model predicts
             continue
         if cname in fixed_names:
             v["regression_of"] = fixed_names[cname].fid
@@ -794,6 +921,7 @@ def run(tier: str, seed: int, replay=None) -> int:
     rep.samples = [{"case": d, "impl": im} for d, im in list(zip(descrs, impls))[:: max(1, len(descrs) // 6)]][:6]
     rep.extra["distribution"] = dist
     rep.extra["model_mismatches"] = stats["model_mismatch"]
+    rep.extra["known_finding_instances"] = kf_instances
     return rep.finish()
 
 
